@@ -1,5 +1,6 @@
 import MosnVerif.Drive.Util
 import MosnVerif.Model.LB
+import MosnVerif.Model.Snapshot
 namespace MosnVerif.Drive.C05
 open MosnVerif.Drive MosnVerif.Model.LB MosnVerif.Model.EDF
 
@@ -123,9 +124,39 @@ def conc (impl : List String) : String :=
   | [b] => if b == "0" then "A S 0" else "D V 0"
   | _ => "E E bad-case"
 
+/-- `snap <pol> <interleaving> => <lb set><host set><member><healthy>`: one lookup written out in its steps
+(`L` = `Snapshot()`, `G` = `.LoadBalancer()`, `C` = `.ChooseHost`, `H` = `.HostSet()`) with ONE `UpdateHosts` (`U`) placed
+between two of them on the real cluster; `c` = the replacement runs INSIDE `ChooseHost` (from the EDF weight callback).
+Model: the publication machine `Model/Snapshot.lean` with the regenerated `UpdateHosts` step program under the
+corresponding schedule (lookup = thread 0, update = thread 1) predicts which replacement the balancer and the host set
+belong to (`o` = old, `n` = new). Predicate (independent of the regenerated program): the returned host comes from the
+same replacement as the host set the lookup read, is an element of it and is healthy. -/
+def snap (inter : String) (impl : List String) : String :=
+  open MosnVerif.Model.Snapshot MosnVerif.Gen.Snapshot in
+  match impl with
+  | [tok] =>
+    let nU := updateHosts.length
+    let sched : List Nat := inter.toList.flatMap (fun ch =>
+      if ch == 'L' || ch == 'G' || ch == 'H' then [0]
+      else if ch == 'U' || ch == 'c' then List.replicate nU 1
+      else [])
+    let c := MosnVerif.Model.Snapshot.run (initConf updateHosts 1) sched
+    let ver (v : Nat) : String := if v == 0 then "o" else if v == 1 then "n" else "?"
+    let model := match seen c 0 with
+      | some (x, y) => ver x ++ ver y
+      | none => "??"
+    let t := tok.toList
+    let spec := match t with
+      | [a, b, m, h] => (a == 'o' || a == 'n') && a == b && m == '1' && h == '1'
+      | _ => false
+    let agree := String.ofList (t.take 2) == model
+    s!"{if agree then "A" else "D"} {if spec then "S" else "V"} {model}"
+  | _ => "E E bad-case"
+
 def run (caseToks impl : List String) : String :=
   match caseToks with
   | ["seq", pol, ops] => seq pol ops impl
+  | ["snap", _, inter] => snap inter impl
   | ["conc", _, _, _] => conc impl
   | _ => "E E unknown-kind"
 
